@@ -611,3 +611,24 @@ val m14_step : m14 -> event -> m14 option
 val m14_run : m14 -> event list -> m14 option
 
 val chk_C14 : event list -> bool
+
+type s13 =
+| SIdle
+| SYielded of nat
+| SItem of nat
+| SMsg of oid
+| SOther
+
+type a13 = { ny : nat; ph : s13; ended : bool }
+
+type m13 = { sa : a13 map0; cr : unit map0 }
+
+val m13_init : m13
+
+val put13 : m13 -> aid -> a13 -> m13 option
+
+val m13_step : m13 -> event -> m13 option
+
+val m13_run : m13 -> event list -> m13 option
+
+val chk_C13 : event list -> bool
